@@ -406,3 +406,6 @@ contract("C15", "pca_take_step", native=False, replay_with="advance_native")(pca
 
 from contracts.mcmc_hmc import hmc_take_step
 contract("C15", "hmc_take_step", native=False, replay_with="advance_native")(hmc_take_step)
+
+
+from contracts.mcmc_native import default_widths_native  # noqa: registers the bounded contract (chains built with derived widths)
